@@ -100,6 +100,14 @@ impl Timestamp {
         Ok(Self(ans))
     }
 
+    /// Both text formats end with a literal UTC designator (`Z` / `GMT`),
+    /// so the fields must be those of the instant expressed in UTC.
+    fn to_utc(&self) -> Result<time::OffsetDateTime, time::error::Format> {
+        self.0
+            .checked_to_offset(time::UtcOffset::UTC)
+            .ok_or(time::error::Format::InvalidComponent("offset"))
+    }
+
     /// Formats `Timestamp` into a writer
     ///
     /// # Errors
@@ -107,10 +115,10 @@ impl Timestamp {
     pub fn format(&self, format: TimestampFormat, w: &mut impl io::Write) -> Result<(), FormatTimestampError> {
         match format {
             TimestampFormat::DateTime => {
-                self.0.format_into(w, RFC3339)?;
+                self.to_utc()?.format_into(w, RFC3339)?;
             }
             TimestampFormat::HttpDate => {
-                self.0.format_into(w, RFC1123)?;
+                self.to_utc()?.format_into(w, RFC1123)?;
             }
             TimestampFormat::EpochSeconds => {
                 let val = self.0.unix_timestamp_nanos();
